@@ -26,12 +26,12 @@ def att2idx(att: str) -> int:
     """
 
     try:
-        att = att.split("_")
-        ln = len(att)
-        if ln == 2:  # one group level
-            return int(att[1])
-        if ln > 2:  # nested group level(s)
-            return tuple(int(att[i]) for i in range(1, ln))
+        _, idx = _att2parts(att)
+        ln = len(idx)
+        if ln == 1:  # one group level
+            return int(idx[0])
+        if ln > 1:  # nested group level(s)
+            return tuple(int(i) for i in idx)
         return 0  # not grouped
     except ValueError:
         return 0
@@ -48,7 +48,26 @@ def att2name(att: str) -> str:
     :rtype: str
     """
 
-    return att.split("_")[0]
+    return _att2parts(att)[0]
+
+
+def _att2parts(att: str) -> tuple:
+    """
+    Split attribute name into data field name and group indices.
+
+    NB: some data field names contain an underscore e.g. DF001_7, DF422_1.
+
+    :param str att: attribute name e.g. DF406_01, DF001_7, IDF039_01_03
+    :return: tuple of (name, [indices])
+    :rtype: tuple
+    """
+
+    parts = att.split("_")
+    name = parts[0]
+    if len(parts) > 1 and name + "_" + parts[1] in RTCM_DATA_FIELDS:
+        name = name + "_" + parts[1]
+        parts = parts[1:]
+    return name, parts[1:]
 
 
 def calc_crc24q(message: bytes) -> int:
@@ -112,7 +131,7 @@ def datadesc(datafield: str) -> str:
     :rtype: str
     """
 
-    (_, _, _, desc) = RTCM_DATA_FIELDS[datafield[0:5]]
+    (_, _, _, desc) = RTCM_DATA_FIELDS[att2name(datafield)]
     return desc
 
 
